@@ -388,6 +388,19 @@ func c08r3(p *Prog, r *Reporter) {
 			if reachableNoBackEdge(fn, moves, l) {
 				bad = "a table length that enters the count is read at " + p.Pos(l.Pos()) + " after rows may already have been moved in the same pass"
 			}
+			// rows moved *into* tables by an earlier iteration change the lengths of tables visited later: a length that
+			// enters the count must not be reachable (through the loop's back edge either) from a call that can grow a table
+			for _, b := range fn.Blocks {
+				for _, ins := range b.Instrs {
+					c, ok := ins.(ssa.CallInstruction)
+					if !ok || c.Common().StaticCallee() == nil || !grow[c.Common().StaticCallee()] {
+						continue
+					}
+					if reachableFrom(fn, ins, func(i ssa.Instruction) bool { return i == ssa.Instruction(l) }) {
+						bad = "the table length read at " + p.Pos(l.Pos()) + " enters the count, but an earlier iteration may already have moved rows into that table (" + cname(c.Common().StaticCallee()) + " at " + p.Pos(c.Pos()) + "): lengths must be read before the first move"
+					}
+				}
+			}
 		}
 		if bad == "" {
 			r.OK(name, "returned count", p.FnPos(fn), "the result is the sum of Len() of the matched tables, each read before any row-moving call of that pass")
